@@ -364,6 +364,31 @@ def e2e(backend, main_rel, inc_rel, use_subdir_include_path=False, retain=False,
         shutil.rmtree(d, ignore_errors=True)
 '''
 
+def e2e_symlink(backend):
+    """the main file reached through a symbolic link that is also an include path: names of the variables seen"""
+    import os, shutil, tempfile
+    from cxxheaderparser.simple import parse_file
+    from cxxheaderparser.options import ParserOptions
+    from cxxheaderparser import preprocessor as pp
+
+    d = tempfile.mkdtemp(prefix="vfc19_")
+    try:
+        real = os.path.join(d, "real")
+        os.makedirs(real)
+        with open(os.path.join(real, "inc.h"), "w") as fp:
+            fp.write("int from_inc;\n")
+        with open(os.path.join(real, "main.h"), "w") as fp:
+            fp.write('int main_before;\n#include "inc.h"\nint main_after;\n')
+        link = os.path.join(d, "link")
+        os.symlink(real, link)
+        kw = dict(include_paths=[link])
+        fn = pp.make_gcc_preprocessor(print_cmd=False, **kw) if backend == "gcc" else pp.make_pcpp_preprocessor(**kw)
+        data = parse_file(os.path.join(link, "main.h"), options=ParserOptions(preprocessor=fn))
+        return [v.name.segments[-1].name for v in data.namespace.variables]
+    finally:
+        shutil.rmtree(d, ignore_errors=True)
+
+
 _ns = {}
 
 
@@ -514,6 +539,14 @@ def run(tier):
             if bad:
                 body = ("from vf.props import c19\n" f"bad = c19.e2e_judge({backend!r}, 'main.h', 'sub/inc.h', incpaths={incpaths!r})\nprint(bad)\nsys.exit(1 if bad else 0)\n")
                 ck.violation(f"{bad} [include paths {incpaths}]", ck.write_replay(body), key=dict(kind="e2e", backend=backend, relation="include-path"))
+        # the main file reached through a symbolic link that is also an include path
+        names_l = e2e_symlink(backend)
+        n_e2e += 1
+        ck.traces += 1
+        if names_l != ["main_before", "main_after"]:
+            body = ("from vf.props import c19\n" f"names = c19.e2e_symlink({backend!r})\nprint(names)\nsys.exit(0 if names == ['main_before', 'main_after'] else 1)\n")
+            ck.violation(f"{backend}: main file reached through a symbolic link below an include path -> variables {names_l}, expected main_before, main_after", ck.write_replay(body),
+                         key=dict(kind="e2e", backend=backend, relation="symlink"))
         # depfile targets are written so that Make reads them back as given
         tgts = ["my project/w.o", "st$1"]
         _, _, dt = e2e(backend, "main.h", "inc.h", depfile=True, deptarget=tgts)
